@@ -130,11 +130,25 @@ func canonPat(p *pat) *pat {
 		}
 		return p
 	}
-	if p.name == "+" && l.op == "ind" && len(l.args) == 1 {
-		if step, ok := parseStep(l.name); ok {
-			if k, isC := patInt(r); isC && k.Cmp(step) == 0 {
+	if p.name == "/" && l.op == "bin" && l.name == "*" && len(l.args) == 2 {
+		if bv, ok := patInt(r); ok && bv.Sign() > 0 {
+			if av, ok := patInt(l.args[1]); ok && av.Sign() > 0 && new(big.Int).Mod(bv, av).Sign() == 0 {
+				q := new(big.Int).Quo(bv, av)
+				if q.Cmp(big.NewInt(1)) == 0 {
+					return l.args[0]
+				}
+				return &pat{op: "bin", name: "/", args: []*pat{l.args[0], {lit: q.String()}}}
+			}
+		}
+	}
+	if (p.name == "+" || p.name == "-") && l.op == "ind" && len(l.args) == 1 {
+		if _, ok := parseStep(l.name); ok {
+			if k, isC := patInt(r); isC {
 				if c0, isC0 := patInt(l.args[0]); isC0 {
-					return &pat{op: "ind", name: l.name, args: []*pat{{lit: new(big.Int).Add(c0, step).String()}}}
+					if p.name == "-" {
+						k = new(big.Int).Neg(k)
+					}
+					return &pat{op: "ind", name: l.name, args: []*pat{{lit: new(big.Int).Add(c0, k).String()}}}
 				}
 			}
 		}
@@ -264,7 +278,108 @@ func isIdent(c byte) bool {
 // Binds is the result of a successful match.
 type Binds map[string]*Term
 
+// xProg, when set (MatchX / FindX), lets a failing sub-match retry on the term
+// with the repository helper call at that position expanded: expansion is
+// guided by the pattern, so helper calls the pattern itself names stay calls.
+var xProg *Prog
+
 func (p *pat) match(t *Term, b Binds) bool {
+	if p.match1(t, b) {
+		return true
+	}
+	if xProg == nil || p.wild != "" || t == nil {
+		return false
+	}
+	for depth := 0; depth < 3; depth++ {
+		nt := expandAt(xProg, t)
+		if nt == nil {
+			return false
+		}
+		nb := Binds{}
+		for k, v := range b {
+			nb[k] = v
+		}
+		if p.match1(nt, nb) {
+			for k, v := range nb {
+				b[k] = v
+			}
+			return true
+		}
+		t = nt
+	}
+	return false
+}
+
+// expandAt expands t itself if it is (an extract of) a call of a single-exit repository helper.
+func expandAt(p *Prog, t *Term) *Term {
+	base := t
+	if base.Op == "obj" && len(base.Args) > 0 {
+		// an object returned by a helper and mutated further: splice the helper's history in front
+		nb := expandAt(p, base.Args[0])
+		if nb == nil {
+			return nil
+		}
+		if nb.Op == "obj" {
+			return &Term{Op: "obj", V: t.V, Args: append(append([]*Term{}, nb.Args...), t.Args[1:]...)}
+		}
+		return &Term{Op: "obj", V: t.V, Args: append([]*Term{nb}, t.Args[1:]...)}
+	}
+	if base.Op == "ext" && len(base.Args) == 1 {
+		inner := base.Args[0]
+		if inner.Op == "obj" && len(inner.Args) > 0 {
+			inner = inner.Args[0]
+		}
+		if inner.Op == "call" {
+			if res := expandCallTerm(p, inner); res != nil && base.Idx < len(res) {
+				return res[base.Idx]
+			}
+		}
+		return nil
+	}
+	if base.Op == "call" {
+		if res := expandCallTerm(p, base); len(res) == 1 {
+			return res[0]
+		}
+	}
+	return nil
+}
+
+func expandCallTerm(p *Prog, call *Term) []*Term {
+	c, ok := call.V.(ssa.CallInstruction)
+	if !ok {
+		return nil
+	}
+	h := c.Common().StaticCallee()
+	if h == nil || h.Blocks == nil || !InRepo(h) || len(h.Params) != len(call.Args) {
+		return nil
+	}
+	hb := NewBuilder(p, h)
+	hb.Bind = map[*ssa.Parameter]*Term{}
+	for i, prm := range h.Params {
+		hb.Bind[prm] = call.Args[i]
+	}
+	var ret *Exit
+	for _, e := range Exits(h) {
+		if e.Panic {
+			continue
+		}
+		if ret != nil {
+			return nil
+		}
+		e := e
+		ret = &e
+	}
+	if ret == nil {
+		return nil
+	}
+	var out []*Term
+	for _, r := range ret.Results {
+		out = append(out, hb.Of(r, ret.Instr))
+	}
+	return out
+}
+
+func (p *pat) match1(t *Term, b Binds) bool {
 	if t == nil {
 		return false
 	}
@@ -300,7 +415,18 @@ func (p *pat) match(t *Term, b Binds) bool {
 		return false
 	}
 	if p.name != "" && p.name != "*" && t.Name != p.name {
-		return false
+		if !strings.Contains(p.name, "|") { // name alternatives: call<a|b>
+			return false
+		}
+		found := false
+		for _, n := range strings.Split(p.name, "|") {
+			if n == t.Name {
+				found = true
+			}
+		}
+		if !found {
+			return false
+		}
 	}
 	if p.hasIdx && t.Idx != p.idx {
 		return false
@@ -503,19 +629,33 @@ func ExpandCalls(p *Prog, t *Term) (*Term, bool) {
 	return r, changed
 }
 
-// MatchX is Match that also accepts t after expanding helper calls (up to three levels).
+// MatchX is Match with pattern-guided expansion of repository helper calls:
+// wherever the pattern does not match a sub-term that is a call of a
+// single-exit repository helper, the helper's result term (parameters bound to
+// the arguments) is tried instead, up to three levels.
 func MatchX(p *Prog, pattern string, t *Term) (Binds, bool) {
-	for i := 0; ; i++ {
-		if b, ok := Match(pattern, t); ok {
-			return b, true
-		}
-		if i == 3 {
-			return nil, false
-		}
+	xProg = p
+	defer func() { xProg = nil }()
+	return Match(pattern, t)
+}
+
+// FindX is Find with the same expansion.
+func FindX(p *Prog, pattern string, t *Term) (*Term, Binds) {
+	xProg = p
+	defer func() { xProg = nil }()
+	if r, b := Find(pattern, t); r != nil {
+		return r, b
+	}
+	// the sub-term may sit inside a helper's result: expand the whole term level by level
+	for i := 0; i < 3; i++ {
 		nt, changed := ExpandCalls(p, t)
 		if !changed {
-			return nil, false
+			break
+		}
+		if r, b := Find(pattern, nt); r != nil {
+			return r, b
 		}
 		t = nt
 	}
+	return nil, nil
 }
